@@ -61,7 +61,10 @@ def eval_doc(args):
     try:
         e0 = [(e.reason, type(e).__name__) for e in s.iter_errors(doc)]
         for thin in (True, False):
-            e1 = [(e.reason, type(e).__name__) for e in s.iter_errors(xmlschema.XMLResource(doc, lazy=1, thin_lazy=thin))]
+            lerrs = list(s.iter_errors(xmlschema.XMLResource(doc, lazy=1, thin_lazy=thin)))
+            e1 = [(e.reason, type(e).__name__) for e in lerrs]
+            # every error of a lazy run keeps a path (read after the run, when the stream has moved on)
+            if any(e.path is None for e in lerrs if e.reason and 'IDREF' not in e.reason and 'not found for' not in e.reason): problems.append(f'an error of the lazy run (thin_lazy={thin}) has no path once the run is over')
             if bool(e0) != bool(e1): problems.append(f'verdict differs (thin_lazy={thin}): eager {len(e0)} errors, lazy {len(e1)}')
             elif e0 != e1: problems.append(f'errors differ (thin_lazy={thin}): eager {e0[:2]} lazy {e1[:2]}')
         d0 = s.decode(doc, validation='lax')[0]
